@@ -52,8 +52,24 @@ func c03RefEval(c c03RefCase) (ok bool, sig, detail string) {
 	fields := seqio.GenBankFields{LocusName: "X", Molecule: mol, Topology: gts.Circular, References: refs}
 	in := seqio.GenBank{Fields: fields, Table: nil, Origin: seqio.NewOrigin(locdom.Seq(c.L))}
 	var out gts.Sequence
+	// the judged slice is not the first slice of this parent (gts extract slices one record many times): two
+	// earlier slices are taken first and must still read the same afterwards, as must the parent
+	refsOf := func(s gts.Sequence) string {
+		if s == nil {
+			return ""
+		}
+		f, _ := s.Info().(seqio.GenBankFields)
+		return fmt.Sprint(f.References)
+	}
+	var pre1, pre2 gts.Sequence
+	engine.Safely(func() { pre1 = gts.Slice(in, 1, maxInt(c.L-1, 2)) })
+	engine.Safely(func() { pre2 = gts.Slice(in, 0, 1) })
+	snap1, snap2, snapIn := refsOf(pre1), refsOf(pre2), refsOf(in)
 	if p, msg := engine.Safely(func() { out = gts.Slice(in, c.S, c.E) }); p {
 		return false, "panic", "panic: " + msg
+	}
+	if refsOf(pre1) != snap1 || refsOf(pre2) != snap2 || refsOf(in) != snapIn {
+		return false, "reference-slices-share-state", fmt.Sprintf("Slice [%d,%d) of L=%d with references %q changed the references of the parent or of an earlier slice of the same parent: parent %s -> %s, earlier slices %s -> %s and %s -> %s", c.S, c.E, c.L, c.Infos, snapIn, refsOf(in), snap1, refsOf(pre1), snap2, refsOf(pre2))
 	}
 	of, isF := out.Info().(seqio.GenBankFields)
 	if !isF {
